@@ -10,7 +10,7 @@
     if consumed, ends at or beyond the position reached through L0. *)
 From Coq Require Import List NArith Bool.
 From LS Require Import Base.PMap Vfs.Index Vfs.Poll Vfs.Restore Vfs.Domain Vfs.World
-                       Vfs.OpenProofs Vfs.PollProofs Vfs.TimeTravel Vfs.TimeTravelProofs.
+                       Vfs.OpenProofs Vfs.PollProofs Vfs.TimeTravel Vfs.TimeTravelProofs Vfs.Hydration Vfs.HydrationProofs.
 Import ListNotations.
 Open Scope N_scope.
 
@@ -120,3 +120,27 @@ Theorem vfs_reset_view_is_latest_restore : forall lockp s plan ops s1,
   t_target (trun s1 ops) = false /\ serves_restore_of lockp plan (t_v (trun s1 ops)).
 Proof. exact reset_view_is_latest_restore. Qed.
 Print Assumptions vfs_reset_view_is_latest_restore.
+
+(** hydration: the hydrated file holds the versions the index serves, on every
+    schedule that does not call ResetTime while hydrated reads are on *)
+Theorem vfs_hydrated_image_agrees_with_index : forall ops s,
+  HInv s -> safe s ops -> HInv (hrun s ops).
+Proof. exact hydrated_image_agrees_with_index. Qed.
+Print Assumptions vfs_hydrated_image_agrees_with_index.
+
+Theorem vfs_hydrated_read_is_index_read : forall s ops p e,
+  HInv s -> safe s ops ->
+  let s' := hrun s ops in
+  N.ltb (v_lock (t_v (h_t s'))) LockShared = true ->
+  read_lookup (t_v (h_t s')) p = Some e -> hread s' p = Some e.
+Proof. exact hydrated_read_is_index_read. Qed.
+Print Assumptions vfs_hydrated_read_is_index_read.
+
+Theorem vfs_reset_while_hydrated_refuted :
+  exists s plan s',
+    HInv s /\ h_on s = true /\ hstep s (HOp (OReset plan)) = Some s' /\
+    v_pos (t_v (h_t s')) = 2 /\
+    read_lookup (t_v (h_t s')) 1 = Some (mkElem 0 2 2) /\
+    hread s' 1 = Some (mkElem 0 1 1) /\ ~ HInv s'.
+Proof. exact reset_while_hydrated_refuted. Qed.
+Print Assumptions vfs_reset_while_hydrated_refuted.
